@@ -66,6 +66,11 @@ class Contract:
     virtual: bool = False
     virtual_ensures: list[str] = dataclasses.field(default_factory=list)
     may_raise: dict = dataclasses.field(default_factory=dict)  # exception -> condition under which it MAY be raised
+    # definitional clauses `result == f(args)` / `result.x == g(args)` that *name* the result of a pure,
+    # deterministic function by an uninterpreted function of its arguments: known to callers, not an
+    # obligation of the body (natively f calls the function itself, so the clause is a tautology there).
+    # Only for int / bool valued names (no object identity is asserted).
+    defines: list = dataclasses.field(default_factory=list)
 
     @property
     def key(self):
@@ -136,6 +141,7 @@ def contract(
     virtual=False,
     virtual_ensures=(),
     may_raise=None,
+    defines=(),
 ):
     if cases is None:
         cases = [dict(when="True", returns=returns, ensures=list(ensures))]
@@ -163,6 +169,7 @@ def contract(
         virtual=virtual,
         virtual_ensures=list(virtual_ensures),
         may_raise=dict(may_raise or {}),
+        defines=list(defines),
     )
     CONTRACTS[qualname] = c
     return c
